@@ -27,6 +27,9 @@ def scenarios(tier: str) -> list[dict]:
                         if tier == "quick" and fault != "none" and (role == "server" or version != tlsrig.VERSIONS[0]):
                             continue
                         out.append({"path": "tls-aclose", "version": version, "role": role, "std": std, "peer": peer, "fault": fault})
+                    # the same close while ANOTHER task is parked in recv() on the transport (a server closing a client whose
+                    # handler awaits the next request)
+                    out.append({"path": "tls-aclose", "version": version, "role": role, "std": std, "peer": peer, "fault": "none", "reader": True})
             # wrap: cut after k bytes of the peer's handshake stream / stalled peer
             cuts = (0, 1, 5, 6, 100) if tier == "quick" else (0, 1, 4, 5, 6, 50, 100, 200, 500, 900)
             for cut in cuts:
@@ -118,6 +121,21 @@ def run(ctx: Ctx, cfg: dict) -> dict:
         if cfg.get("fault") == "leaf-send-error":
             leaf.send_error = BrokenPipeError(errno.EPIPE, "broken pipe")
 
+        rtask = None
+        if cfg.get("reader"):
+            async def parked_reader() -> None:
+                try:
+                    out["reader"] = ("returned", len(await tls.recv(100)))
+                except asyncio.CancelledError:
+                    out["reader"] = ("cancelled",)
+                    raise
+                except Exception as exc:  # noqa: BLE001
+                    out["reader"] = ("raised", type(exc).__name__)
+
+            rtask = loop.create_task(parked_reader())
+            for _ in range(3):
+                await asyncio.sleep(0)
+
         async def first_close() -> None:
             st["started"] = True
             await tls.aclose()
@@ -141,7 +159,6 @@ def run(ctx: Ctx, cfg: dict) -> dict:
             await asyncio.sleep(0)
         out["leaf_closed"] = leaf.is_closing()
         out["is_closing"] = tls.is_closing()
-        out["peer_saw_close_notify"] = bool(getattr(relay.peer, "saw_close_notify", False) or any("close_notify" in str(e) for e in getattr(relay.peer, "events", [])))
         t0 = world.clock
         third = loop.create_task(tls.aclose())
         for _ in range(3):
@@ -152,6 +169,16 @@ def run(ctx: Ctx, cfg: dict) -> dict:
         out["third_time"] = round(world.clock - t0, 6)
         if not third.done():
             third.cancel()
+        if rtask is not None:
+            for _ in range(3):
+                if rtask.done():
+                    break
+                await asyncio.sleep(0)
+            out["reader_done"] = rtask.done()
+            if not rtask.done():
+                rtask.cancel()
+        relay.drain()
+        out["peer_saw_close_notify"] = bool(relay.peer.saw_close_notify)
 
     status, value, loop = vloop.run(world, main)
     out.pop("leaf", None)
@@ -197,6 +224,13 @@ def oracle(cfg: dict, obs: dict) -> str | None:
             return "close-raised-unexpected-" + r[7:]
     if r == "cancelled" and not obs["cancel_applied"]:
         return "cancelled-without-cancel-request"
+    # "closing the transport sends a close notification" (standard-compatible mode): an undisturbed close must have put it
+    # on the wire - also when another task is parked in recv()
+    if cfg.get("std") and r == "returned" and not obs["cancel_applied"] and cfg.get("fault") == "none" and not obs.get("second_started"):
+        if not obs.get("peer_saw_close_notify"):
+            return "close-did-not-send-close_notify"
+    if cfg.get("reader") and obs.get("reader_done") is False:
+        return "parked-reader-left-pending-after-close"
     if obs.get("second_started") and obs.get("second_done") is False:
         return "second-close-does-not-return"
     if not obs.get("third_done") or obs.get("third_time", 0) > 1e-3:
